@@ -139,7 +139,31 @@ CONFIGS = {
               fn_defers={}),
     "t": dict(K=[1, 2, 3, 4], rec=[4], interval={4: 2}, offset={4: 1}, task_defers={2: 1, 3: 2}, F=[1, 2, 3, 4, 5, 6],
               fn_defers={1: 4, 4: 5, 2: 6}),
+    # many one-shot timers pending at once (trace validation only): removals from the middle of a deep heap
+    "h": dict(K=list(range(1, 13)), rec=[], interval={}, offset={}, task_defers={}, F=[1], fn_defers={}),
 }
+
+
+def heap_ops(rng, c, n):
+    """many timers of very different lengths installed together, most of them stopped again before they are due (what
+    transactions completing normally do to their timeout tasks), the clock advancing in small steps in between"""
+    ops, now = [], 0
+    for _ in range(n):
+        r = rng.random()
+        if r < 0.45:
+            ops.append(("at", rng.choice(c["K"]), now + rng.choice([1, 2, 3, 5, 8, 13, 21, 34, 60])))
+        elif r < 0.55:
+            ops.append(("after", rng.choice(c["K"]), rng.choice([1, 3, 30])))
+        elif r < 0.88:
+            ops.append(("suspend", rng.choice(c["K"]), 0))
+        else:
+            d = rng.choice([0, 1, 1, 2, 4])
+            now += d
+            ops.append(("run", 0, d))
+    for _ in range(8):          # let everything still pending fire
+        now += 10
+        ops.append(("run", 0, 10))
+    return ops
 
 
 def tla_fn(d, dom):
@@ -578,6 +602,12 @@ def main(tier, seed):
         if i < 2:
             chk.sample({"config": cname, "traises": tr, "fraises": fr, "first_ops": [list(o) for o in ops[:12]],
                         "last_state": evs[-1]["st"] if evs else None})
+    for i in range(300 if thorough else 60):
+        c = CONFIGS["h"]
+        ops = heap_ops(rng, c, rng.choice([40, 80, 200]))
+        evs = record_history(c, [], [], ops)
+        traces.append(("h", {"tid": 2000000 + i, "traises": [], "fraises": [], "evs": evs, "ops": [list(o) for o in ops]}))
+        chk.case(("H", i), nontrivial=True, n=len(evs))
     base = nrand
     for sub, ops in batch_subset_traces(t, 6 if thorough else 5):
         base += 1
@@ -585,7 +615,7 @@ def main(tier, seed):
         traces.append(("t", {"tid": base, "traises": [], "fraises": sub, "evs": evs, "ops": [list(o) for o in ops]}))
         chk.case(("batch", tuple(sub), len(ops)), nontrivial=bool(sub), n=len(evs))
         chk.monitor("FailureIsolation", 1 if sub else 0)
-    for cname in ("a", "r", "t"):
+    for cname in ("a", "r", "t", "h"):
         validate_traces(chk, cname, CONFIGS[cname], [x for n_, x in traces if n_ == cname], cname)
     recurring_float_grid(chk, rng, 0)
     core_run_loop(chk, rng, 300 if thorough else 60)
